@@ -42,8 +42,11 @@ def feed(report, reps, kinds, need_spec=False):
                 continue
             oid = '%s:%s' % (r['file'], o['site'])
             meta = {'cfile': r['file'], 'module': r['file'][:-2],
-                    'fn': r['function'], 'line': o['line'],
+                    'fn': r['function'][5:] if r['file'] == 'base.c' and
+                    r['function'].startswith('base_') else r['function'],
+                    'line': o['line'],
                     'line_end': (o.get('extra') or {}).get('line_end'),
+                    'line_start': (o.get('extra') or {}).get('line_start'),
                     'params': post.get('params') or r.get('params'), 'mats': post.get('mats',
                                                                   []),
                     'outputs': post.get('outputs', [])}
